@@ -66,8 +66,8 @@ func TestVerifC01History(t *testing.T) {
 			add(st.FaultsFired > 0, "fault-fired")
 			add(st.Crashes > 0, "crash")
 			add(s.w.stalls > 0, "operation-stalled-until-deadline")
-		add(st.CreateRaces > 0, "concurrent-CreateLog")
-		add(st.CreatesOverExisting > 0, "CreateLog-over-existing-log")
+			add(st.CreateRaces > 0, "concurrent-CreateLog")
+			add(st.CreatesOverExisting > 0, "CreateLog-over-existing-log")
 			add(st.ClockAnoms > 0, "clock-anomaly")
 			add(st.TileCross > 0, "tile-boundary-crossed")
 			add(st.MultiTile > 0, "multi-tile-round")
